@@ -524,6 +524,28 @@ def run_tables(c, prog, S, D):
                 and (disp_rev == 1) == (len(parse_rev) == 1) and len(parse_rev) <= 1 and all(a == ("hex::decode_to_array(arg1)",) for a in parse_rev)
                 and okr == ["std::result::Result::Ok{%s::%s{secp256k1_zkp::Tweak::from_inner(hex::decode_to_array(arg1))}}" % (ty, n)])
         c.inst("R7.reversed-hex", ty, good, "Display reverses: %s (of %d returns); FromStr reverses: %s; Ok value %s" % (disp_rev, disp_all, parse_rev, okr), FSr.f.where(), ty)
+    # binary (non human readable) form of the same two types: bytes written as stored, read as received — no transform on
+    # either side, and the string visitor of the human-readable form goes through FromStr (the R7 pair)
+    for ty in ("confidential::AssetBlindingFactor", "confidential::ValueBlindingFactor"):
+        n = ty.split("::")[-1]
+        SF = Fn(prog, S[ty])
+        wr = [sh(s_[1]) for cx, s_ in SF.flat if s_[0] == "ret" and "serialize_bytes" in sh(s_[1])]
+        BV = "<<%s as serde::Deserialize<'de>>::deserialize::BytesVisitor as serde::de::Visitor<'_>>::visit_bytes" % ty
+        HV = "<<%s as serde::Deserialize<'de>>::deserialize::HexVisitor as serde::de::Visitor<'_>>::visit_str" % ty
+        good = prog.has_fn(BV) and prog.has_fn(HV)
+        det = "visitors not found"
+        if good:
+            BF = Fn(prog, BV)
+            HF = Fn(prog, HV)
+            rd = [sh(s_[1]) for cx, s_ in BF.flat if s_[0] == "ret" and sh(s_[1]).startswith("std::result::Result::Ok")]
+            muts = [s_[1] for cx, s_ in BF.flat if s_[0] == "do"]
+            hs = [sh(s_[1]) for cx, s_ in HF.flat if s_[0] == "ret"]
+            TF = "std::array::<impl std::convert::TryFrom<&[T]> for [T; N]>::try_from(arg2)"
+            good = (wr == ["serde::Serializer::serialize_bytes(arg2, <secp256k1_zkp::Tweak as std::ops::Index<I>>::index(arg1.0, std::ops::RangeFull::RangeFull{}))"]
+                    and rd == ["std::result::Result::Ok{%s::%s{secp256k1_zkp::Tweak::from_inner(ok(%s))}}" % (ty, n, TF)] and not muts
+                    and len(hs) == 1 and "core::str::parse(arg2)" in hs[0])
+            det = "writes %s; reads %s; in-place mutations %s; string visitor %s" % (wr, rd, muts, hs)
+        c.inst("R7.binary-form", ty, good, det, prog.fn(S[ty]).where(), ty)
     for ty in ("hash_types::Txid",):
         v = (prog.consts.get("<%s as hashes::Hash>::DISPLAY_BACKWARD" % ty) or {}).get("val")
         c.inst("R7.reversed-hex", "%s::DISPLAY_BACKWARD (OutPoint text form parses through bitcoin::OutPoint, whose txid is displayed backward)" % ty, v == "true", "evaluated %s" % v, None, ty)
